@@ -3,6 +3,7 @@ package scen
 import (
 	"encoding/json"
 	"fmt"
+	"math/bits"
 	"sort"
 
 	"github.com/openacid/low/bitmap"
@@ -61,7 +62,21 @@ func (Builder) Generate(seed uint64, tier string) engine.Plan {
 	}
 	setProb := r.PickInt(0, 0, 1, 3) // out of 10
 	off := int64(0)                  // generator's running offset estimate
-	for i := 0; i < nops && off < 1<<19; i++ {
+	if r.Chance(1, 12) {
+		// a history that starts FAR out: one sparse segment carries the running
+		// offset past 2^16 / 2^17 / 2^20 bits (where a 16-bit or otherwise narrow
+		// intermediate would wrap) before the ordinary segments follow
+		op := BOp{Op: "extend"}
+		op.Size = int32(r.PickInt64(65535, 65536, 65537, 1<<17-1, 1<<17, 1<<20, 1<<20+1, r.Range(1<<16, 1<<21)))
+		for _, q := range []int32{0, 63, 64, op.Size / 2, op.Size - 65, op.Size - 64, op.Size - 1} {
+			if q >= 0 && q < op.Size && r.Chance(1, 2) && (len(op.Pos) == 0 || q > op.Pos[len(op.Pos)-1]) {
+				op.Pos = append(op.Pos, q)
+			}
+		}
+		off += int64(op.Size)
+		p.Ops = append(p.Ops, op)
+	}
+	for i := 0; i < nops && off < 1<<22; i++ {
 		if r.Intn(10) < setProb {
 			op := BOp{Op: "set", Val: int32(r.PickInt(1, 1, 1, 0))}
 			switch r.Intn(6) {
@@ -165,10 +180,10 @@ func trimZeroWords(a []uint64) []uint64 {
 func bitsOf(words []uint64) []int32 {
 	var out []int32
 	for i, w := range words {
-		for b := 0; b < 64; b++ {
-			if w>>uint(b)&1 == 1 {
-				out = append(out, int32(i*64+b))
-			}
+		for w != 0 {
+			b := bits.TrailingZeros64(w)
+			out = append(out, int32(i*64+b))
+			w &^= 1 << uint(b)
 		}
 	}
 	return out
